@@ -158,8 +158,13 @@ func (fc *FuncCtx) evalConversion(call *ast.CallExpr, to types.Type, st *St) Ter
 		}
 	case tos.Kind == KSlice || tos.Kind == KSeq:
 		if v.Sort.Kind == KString || v.Sort.Kind == KBStr {
-			// []byte(s): opaque
-			fc.declareFun("string_to_bytes", []*Sort{v.Sort}, tos)
+			// []byte(s): opaque, with string([]byte(s)) == s
+			if !fc.declSet["string_to_bytes"] {
+				fc.declareFun("string_to_bytes", []*Sort{v.Sort}, tos)
+				b2s := "bytes_to_string_" + mangle(tos.SMT())
+				fc.declareFun(b2s, []*Sort{tos}, v.Sort)
+				fc.addAxiom(fmt.Sprintf("(forall ((s %s)) (! (= (%s (string_to_bytes s)) s) :pattern ((string_to_bytes s))))", v.Sort.SMT(), b2s))
+			}
 			return App(tos, "string_to_bytes", v)
 		}
 		if v.Sort.Equal(tos) {
@@ -829,9 +834,28 @@ func (fc *FuncCtx) callByContract(con *Contract, ref *FuncRef, fn *types.Func, a
 			}
 		}
 	}
+	var wraps []*FuncVal
 	for i, n := range names {
 		if i < len(args) {
-			env.bound[n] = args[i]
+			a := args[i]
+			if a.Fn != nil && (a.Fn.Kind == "lit" || a.Fn.Kind == "named") && !con.Extern {
+				// a closure / named function handed to a callee as a callback: it gets a call-site trace so that
+				// the callee's trace postconditions (which calls happened, on what) can be used
+				fc.nwrap++
+				w := &FuncVal{Kind: "wrap", Name: fmt.Sprintf("cb%d", fc.nwrap), Inner: a.Fn, Sig: a.Fn.Sig}
+				if w.Sig == nil && a.Fn.Ref != nil && a.Fn.Ref.Obj != nil {
+					w.Sig, _ = a.Fn.Ref.Obj.Type().(*types.Signature)
+				}
+				if w.Sig != nil {
+					st.trn[w.Name] = fc.entryTrn(w.Name)
+					st.tra[w.Name] = fc.entryTra(w)
+					pre.trn[w.Name] = st.trn[w.Name]
+					pre.tra[w.Name] = st.tra[w.Name]
+					a = Term{S: "0", Sort: a.Sort, Fn: w}
+					wraps = append(wraps, w)
+				}
+			}
+			env.bound[n] = a
 		}
 	}
 	if call != nil && fn != nil {
@@ -871,7 +895,7 @@ func (fc *FuncCtx) callByContract(con *Contract, ref *FuncRef, fn *types.Func, a
 	{
 		var fnames []string
 		for n, a := range env.bound {
-			if a.Fn != nil && a.Fn.Kind == "param" {
+			if a.Fn != nil && (a.Fn.Kind == "param" || a.Fn.Kind == "wrap") {
 				fnames = append(fnames, n)
 			}
 		}
@@ -1009,7 +1033,173 @@ func (fc *FuncCtx) callByContract(con *Contract, ref *FuncRef, fn *types.Func, a
 	for _, e := range con.Ensures {
 		st.assume(fc.spec(e.Expr, env))
 	}
+	// callbacks that are closures over functions under contract: effects and panics of the calls the callee made
+	for _, w := range wraps {
+		fc.afterWrappedCalls(w, pre, st, pos)
+	}
 	return results
+}
+
+// afterWrappedCalls: the callee returned normally, so every call it made of the wrapped function value
+// returned normally: if that function panics exactly under C, then C is false on the arguments of every
+// recorded call; the global state components it modifies are havocked; and the call as a whole may panic.
+func (fc *FuncCtx) afterWrappedCalls(w *FuncVal, pre, st *St, pos string) {
+	n0, n1 := pre.trn[w.Name], st.trn[w.Name]
+	arrs := st.tra[w.Name]
+	fc.qn++
+	j := T(fmt.Sprintf("j_q%d", fc.qn), SInt)
+	var args []Term
+	for _, a := range arrs {
+		args = append(args, Select(a, j))
+	}
+	cond, mods, known := fc.panicCondOf(w.Inner, args, st, 0)
+	for _, g := range mods {
+		if ty, ok := fc.E.CS.Globals[g]; ok {
+			so := fc.sortOfSType(ty, nil)
+			fc.globOf(st, g, so)
+			st.glob[g] = fc.fresh("glob_"+g, so)
+		}
+	}
+	rng := And(Le(n0, j), Lt(j, n1))
+	if known {
+		if cond.S != "false" {
+			// may panic: some call's panic condition held
+			if fc.Con.Panics != "may" {
+				s2 := st.clone()
+				s2.assume(T("(exists (("+j.S+" Int)) "+And(rng, cond).S+")", SBool))
+				fc.panicAt(s2, pos, "a callback passed to the callee panics")
+			}
+			st.assume(T("(forall (("+j.S+" Int)) "+Implies(rng, Not(cond)).S+")", SBool))
+		}
+	} else if fc.Con.Panics != "may" {
+		s2 := st.clone()
+		fc.panicAt(s2, pos, "a callback passed to the callee may panic")
+	}
+}
+
+// panicCondOf: under which condition does calling fv on args panic, and which global state components
+// may it modify?  known=false when the function value is too complex to tell.
+func (fc *FuncCtx) panicCondOf(fv *FuncVal, args []Term, st *St, depth int) (cond Term, mods []string, known bool) {
+	if depth > 6 {
+		return False, nil, false
+	}
+	switch fv.Kind {
+	case "param":
+		return False, nil, true // callbacks of the verified function are total
+	case "wrap":
+		return fc.panicCondOf(fv.Inner, args, st, depth+1)
+	case "named":
+		con := fc.E.CS.Funcs[fv.Name]
+		if con == nil {
+			// no contract: small pure helpers are inlined elsewhere; here we only know what a scan tells us
+			if fv.Ref != nil && fv.Ref.Decl.Body != nil && !mayPanicSyntactically(fv.Ref.Decl.Body) {
+				return False, nil, true
+			}
+			return False, nil, false
+		}
+		for _, m := range con.Modifies {
+			if strings.HasPrefix(m, "glob:") {
+				mods = append(mods, strings.TrimPrefix(m, "glob:"))
+			}
+		}
+		env := fc.newEnv(st)
+		env.calleeCon = con
+		var names []string
+		if con.Extern {
+			names = con.ParamNames
+		} else if fv.Ref != nil {
+			for _, id := range formalObjs(fv.Ref) {
+				if id != nil {
+					names = append(names, id.Name)
+				} else {
+					names = append(names, "_")
+				}
+			}
+		}
+		for i, n := range names {
+			if i < len(args) {
+				env.bound[n] = args[i]
+			}
+		}
+		switch con.Panics {
+		case "never":
+			return False, mods, true
+		case "iff":
+			return fc.spec(con.PanicsCond, env), mods, true
+		}
+		return False, mods, false
+	case "lit":
+		// a literal whose body is a single call (return G(...) or G(...)): the condition of that call
+		if len(fv.Lit.Body.List) != 1 {
+			return False, nil, false
+		}
+		var ce ast.Expr
+		switch s := fv.Lit.Body.List[0].(type) {
+		case *ast.ReturnStmt:
+			if len(s.Results) == 1 {
+				ce = s.Results[0]
+			}
+		case *ast.ExprStmt:
+			ce = s.X
+		}
+		call, ok := ast.Unparen(ce).(*ast.CallExpr)
+		if ce == nil || !ok {
+			return False, nil, false
+		}
+		work := st.clone()
+		for k, v := range fv.Env.vars {
+			if _, ok := work.vars[k]; !ok {
+				work.vars[k] = v
+			}
+		}
+		i := 0
+		for _, f := range fv.Lit.Type.Params.List {
+			for _, nm := range f.Names {
+				if obj := fv.Info.Defs[nm]; obj != nil && i < len(args) {
+					work.vars[obj] = args[i]
+				}
+				i++
+			}
+		}
+		fc.infoStack = append(fc.infoStack, fv.Info)
+		defer func() { fc.infoStack = fc.infoStack[:len(fc.infoStack)-1] }()
+		fn := fc.calleeFunc(call)
+		if fn == nil {
+			return False, nil, false
+		}
+		nobl := len(fc.Obls)
+		var cargs []Term
+		for _, a := range call.Args {
+			cargs = append(cargs, fc.evalPure(a, work))
+		}
+		fc.Obls = fc.Obls[:nobl]
+		key := funcKey(fn)
+		var ref *FuncRef
+		if fn.Pkg() != nil && fc.E.Pkgs[fn.Pkg().Path()] == nil {
+			key = "ext:" + fn.Pkg().Path() + "." + strings.TrimPrefix(key, fn.Pkg().Name()+".")
+		} else {
+			ref = fc.E.FuncDecl[key]
+		}
+		return fc.panicCondOf(&FuncVal{Kind: "named", Name: key, Ref: ref}, cargs, st, depth+1)
+	}
+	return False, nil, false
+}
+
+// mayPanicSyntactically: does a function body contain anything that can panic (calls, indexing, ...)?
+func mayPanicSyntactically(b *ast.BlockStmt) bool {
+	found := false
+	ast.Inspect(b, func(n ast.Node) bool {
+		switch n.(type) {
+		case *ast.CallExpr, *ast.IndexExpr, *ast.SliceExpr, *ast.TypeAssertExpr, *ast.StarExpr:
+			found = true
+		case *ast.BinaryExpr:
+			if n.(*ast.BinaryExpr).Op.String() == "/" || n.(*ast.BinaryExpr).Op.String() == "%" {
+				found = true
+			}
+		}
+		return !found
+	})
+	return found
 }
 
 func (fc *FuncCtx) havocMineAfterCall(st *St, pre *St) Term {
